@@ -25,6 +25,34 @@ CHECKS = {
             "TLA+ codec spec (CRC-16 in TLA+); TLC grid model checking + vector replay; TLC trace validation",
             "As C02 for telemetry with the timestamp length as configuration axis (0..40), the service-17 wrapper and the "
             "generic space-packet view.", "DESIGN.md 5/C03", ""),
+    "C05": (True, "model_checking",
+            "TLA+ codec spec; TLC grid model checking + vector replay; TLC trace validation of recorded calls",
+            "TLC checks header round-trip / length / no-swap / reject laws over all 2^7 flag combinations x 16 width pairs x ID "
+            "patterns x length grid and the decoder's (octet 1, octet 4) accept/reject table; every vector is executed on "
+            "PduHeader; recorded calls (random IDs over the full width, all data-field lengths, all 65 536 (octet1, octet4) "
+            "pairs) are validated by TLC.", "DESIGN.md 5/C05", ""),
+    "C06": (True, "model_checking",
+            "TLA+ codec spec of the 7 directives (layouts from 727.0-B-5 5.2); TLC grid model checking + vector replay; "
+            "TLC trace validation",
+            "PduEnc/PduDec for the seven directives are model-checked (round trip, data-field-length law, CRC trailer law, "
+            "re-pack, suffix-freeness, every strict prefix rejected) over full enum cross products x header configurations; "
+            "every vector is executed on the PDU classes and recorded random round trips (full 32/64-bit range, oversize "
+            "values) are validated by TLC.", "DESIGN.md 5/C06", ""),
+    "C07": (True, "model_checking",
+            "TLA+ codec spec of the File Data PDU; TLC grid model checking + vector replay; TLC trace validation",
+            "As C06 for the File Data PDU: offsets at the 32/64-bit boundaries, empty / TLV-looking / long data, segment "
+            "metadata 0..63 (64 refused), all header configurations, plus the max-segment-length helper.", "DESIGN.md 5/C07", ""),
+    "C08": (True, "model_checking",
+            "TLA+ codec spec of LV/TLV and the six concrete TLVs; TLC grid model checking + vector replay (incl. the full "
+            "type-mismatch matrix); TLC trace validation",
+            "LV/TLV and concrete-TLV layouts are model-checked (round trip, exact consumption, cross-class decode is a type "
+            "mismatch) and every vector incl. the 6 x 5 x 3 mismatch matrix is executed on the classes via unpack / from_tlv / "
+            "TlvHolder; random round trips are validated by TLC.", "DESIGN.md 5/C08", ""),
+    "C12": (True, "model_checking",
+            "TLA+ dispatch spec (PduDec with want='any', raw inspectors, holder matrix); TLC grid + vector replay; trace validation",
+            "The factory's dispatch is specified as PduDec(b, any) and model-checked to agree with the per-kind decoders for all "
+            "8 kinds x 128 header configurations; each vector runs PduFactory.from_raw / from_raw_to_holder / inspectors and "
+            "the 8 x 8 accessor matrix on the code.", "DESIGN.md 5/C12", ""),
     "C13": (True, "model_checking",
             "TLA+ state machine of the stream parser; TLC exhaustive over all fragmentations/interleavings; every transition "
             "replayed on the real function; TLC trace validation of recorded random histories",
@@ -46,5 +74,5 @@ CHECKS = {
             "than 2^W calls (W = 14, 8, 16 ...) with random restart points are validated by Trace_SeqCount.", "DESIGN.md 5/C19", ""),
 }
 NOT_YET = {}
-for _i in [4, 5, 6, 7, 8, 9, 10, 11, 12, 14, 15, 17, 18, 20]:
+for _i in [4, 9, 10, 11, 14, 15, 17, 18, 20]:
     NOT_YET[f"C{_i:02d}"] = "check not built yet in this revision of /verif (construction in progress, see DESIGN.md 11)"
